@@ -132,6 +132,23 @@ def expandStates (n : Nat) (rot : Fin n → Bool) (σ : Fin n → Bool) : List (
       Nat.testBit i (m - 1 - rank)
     else σ j)
 
+/-- which fast path -/
+inductive FastPath where
+  | innerProd
+  | rhoProbs
+  deriving DecidableEq, Repr
+
+/-- outcome class when `states` is ONE 1-D vector `(n,)` instead of a batch `(B, n)` (outside the property's quantifier,
+"any batch of outcome states"; audit item C04-6). With a rotated site, `v[..., sites] = generate_hilbert_space(size=m).unsqueeze(1)`
+(`unitaries.py:177`) writes a `(2^m, 1, m)` tensor into a `(2^m, m)` slice: `RuntimeError`. With an all-`Z` basis
+`v = states.unsqueeze(0)`, `Ut = ones((1,))`: `rotate_psi_inner_prod` returns the single amplitude, `rotate_rho_probs` fails in
+`np.einsum("ib,jb->ijb", Ut, conj(Ut))` on the 1-D `Ut` (`ValueError`). -/
+def vectorStatesOutcome (p : FastPath) (anyRotated : Bool) : Except PyErr Unit :=
+  if anyRotated then .error .RuntimeError
+  else match p with
+    | .innerProd => .ok ()
+    | .rhoProbs => .error .ValueError
+
 /-! ### the fast paths as the code computes them: enumeration of the expanded states
 
 `_rotate_basis_state` (`unitaries.py:154-181`), line by line against `expandStates` / `rotCoeff`:
